@@ -125,15 +125,17 @@ void vprop_init (int argc, char **argv)
 /* enumerated stage: one case per (opcode, prefix); the case walks every operand position x every way of spoiling it x array/temporary
  * operands x every target inside the child */
 /* then: 8 targets x 2 rankings x every length 3..52 of the "N most expensive opcodes, one instruction each" programs */
-#define N_HEAVY_ENUM (8 * 3 * 50)
-uint64_t vprop_enum_count (const char *tier) { (void) tier; return (uint64_t) v_noptab * 3 + N_HEAVY_ENUM; }
+#define N_HEAVY_ENUM (8 * 3 * 50 * 2)
+#define N_REGRESS_DECL 16
+uint64_t vprop_enum_count (const char *tier) { (void) tier; return (uint64_t) v_noptab * 3 + N_HEAVY_ENUM + N_REGRESS_DECL; }
 size_t vprop_enum_stream (uint64_t i, uint32_t *out, size_t max)
 {
   (void) max;
+  if (i >= (uint64_t) v_noptab * 3 + N_HEAVY_ENUM) { out[0] = 0xE5E5E5E7u; out[1] = (uint32_t) (i - (uint64_t) v_noptab * 3 - N_HEAVY_ENUM); return 2; }
   if (i >= (uint64_t) v_noptab * 3) {
     uint64_t k = i - (uint64_t) v_noptab * 3;
-    out[0] = 0xE5E5E5E6u; out[1] = (uint32_t) (k % 8); out[2] = (uint32_t) ((k / 8) % 3); out[3] = 3 + (uint32_t) (k / 24);
-    return 4;
+    out[0] = 0xE5E5E5E6u; out[1] = (uint32_t) (k % 8); out[2] = (uint32_t) ((k / 8) % 3); out[3] = 3 + (uint32_t) ((k / 24) % 50); out[4] = (uint32_t) (k / 1200);
+    return 5;
   }
   out[0] = 0xE5E5E5E5u; out[1] = (uint32_t) (i / 3); out[2] = (uint32_t) (i % 3); return 3;
 }
@@ -491,7 +493,52 @@ static void over_limit (OrcProgram *p, VChoices *c, VResult *r, OrcTarget *targe
   }
 }
 
-static void heavy_enum (VResult *r, int t, int m, int count)
+/* a hand-written program that the rankings above do not reproduce: 19 opcodes that each need their own pooled vector constant on
+   AltiVec (found by a reviewing agent reading orcpowerpc.c; the label table overflowed).  Kept as a fixed regression input:
+   k = number of the listed opcodes used (12..19) x {AltiVec only, default flags} */
+#define N_REGRESS (8 * 2)
+static void regress_case (VResult *r, int k)
+{
+  static const char *ops[] = { "splatw3q", "convhwb", "convhlw", "convql", "swapw", "swapl", "swapwl", "swapq", "swaplq", "select0wb", "select0ql",
+    "mergewl", "mergebw", "splitlw", "mulf", "convfl", "mulhsw", "mullb", "mulhsb" };
+  static const int sz[4] = { 1, 2, 4, 8 };
+  int nops = 12 + (k / 2) % 8, i, j;
+  OrcTarget *target = orc_target_get_by_name ("altivec");
+  unsigned flags = (k & 1) ? orc_target_get_default_flags (target) : ORC_TARGET_POWERPC_ALTIVEC;   /* big-endian AltiVec without VSX */
+  OrcProgram *p = orc_program_new ();
+  OrcCompileResult res;
+  char what[100];
+  v_desc (r, "# C05 regression program: the first %d of 19 opcodes with one pooled AltiVec constant each, flags 0x%x\n", nops, flags);
+  orc_program_add_destination (p, 1, "d1");
+  for (i = 0; i < 4; i++) {
+    char sn[8], tn[8], r1[8], r2[8];
+    snprintf (sn, sizeof sn, "s%d", sz[i]); snprintf (tn, sizeof tn, "t%d", sz[i]); snprintf (r1, sizeof r1, "r%d", sz[i]); snprintf (r2, sizeof r2, "q%d", sz[i]);
+    orc_program_add_source (p, sz[i], sn); orc_program_add_temporary (p, sz[i], tn); orc_program_add_temporary (p, sz[i], r1); orc_program_add_temporary (p, sz[i], r2);
+    orc_program_append_str (p, sz[i] == 1 ? "loadb" : sz[i] == 2 ? "loadw" : sz[i] == 4 ? "loadl" : "loadq", tn, sn, NULL);
+  }
+  for (i = 0; i < nops; i++) {
+    OrcStaticOpcode *op = orc_opcode_find_by_name (ops[i]);
+    const char *a[4] = { NULL, NULL, NULL, NULL };
+    char b[4][8];
+    int n = 0;
+    if (!op) continue;
+    for (j = 0; j < 2; j++) if (op->dest_size[j]) { snprintf (b[n], sizeof b[n], "%c%d", j ? 'q' : 'r', op->dest_size[j]); a[n] = b[n]; n++; }
+    for (j = 0; j < 4 && n < 4; j++) if (op->src_size[j]) { snprintf (b[n], sizeof b[n], "t%d", op->src_size[j]); a[n] = b[n]; n++; }
+    orc_program_append_str_2 (p, ops[i], 0, a[0], a[1], a[2], a[3]);
+  }
+  orc_program_append_str (p, "storeb", "d1", "t1", NULL);
+  snprintf (what, sizeof what, "regression program %d target altivec", k);
+  v_stage (r, "compile %s", what);
+  res = orc_program_compile_full (p, target, flags);
+  v_desc (r, "  -> %s%s%s\n", v_result_name (res), p->error_msg ? ": " : "", p->error_msg ? p->error_msg : "");
+  classify (p, res, 3, r, what);
+  orc_program_free (p);
+  r->classes |= (1u << 2) | (1u << 6);
+  r->sub_evals = 1; r->sub_nontrivial = 1; r->nontrivial = 1;
+  r->hash = 0xE7000000u + (uint64_t) k;
+}
+
+static void heavy_enum (VResult *r, int t, int m, int count, int flagsel)
 {
   OrcProgram *p = orc_program_new ();
   OrcTarget *target = orc_target_get_by_name (tnames[t]);
@@ -509,13 +556,20 @@ static void heavy_enum (VResult *r, int t, int m, int count)
   orc_program_append_str (p, "copyb", "pd", "pu1", NULL);
   snprintf (what, sizeof what, "%d most expensive opcodes (ranking %d) target %s", count, m, tnames[t]);
   v_stage (r, "compile %s", what);
-  res = orc_program_compile_full (p, target, orc_target_get_default_flags (target));
+  {
+    /* default flags, or only the lowest flag bit of the default set (the base instruction set of the back end: AltiVec without
+       VSX, SSE2 only, ...), which changes which opcodes need pooled constants and long expansions */
+    unsigned dflt = orc_target_get_default_flags (target), fl = dflt;
+    if (flagsel == 1 && dflt) fl = t == 3 ? ORC_TARGET_POWERPC_ALTIVEC : (dflt & (~dflt + 1u));
+    v_desc (r, "# flags 0x%x (default 0x%x)\n", fl, dflt);
+    res = orc_program_compile_full (p, target, fl);
+  }
   v_desc (r, "  -> %s%s%s\n", v_result_name (res), p->error_msg ? ": " : "", p->error_msg ? p->error_msg : "");
   classify (p, res, t, r, what);
   orc_program_free (p);
   r->classes |= (1u << 2) | (1u << (3 + t));
   r->sub_evals = 1; r->sub_nontrivial = 1; r->nontrivial = 1;
-  r->hash = 0xE6000000u + (uint64_t) (t * 1000 + m * 100 + count);
+  r->hash = 0xE6000000u + (uint64_t) (flagsel * 10000 + t * 1000 + m * 100 + count);
 }
 
 /* a program the compiler did not reject (any non-fatal result) "stays runnable by emulation": arbitrary API calls went into it, so
@@ -561,7 +615,8 @@ void vprop_case (VChoices *c, VResult *r)
   uint64_t h;
 
   if (c->n >= 3 && c->v[0] == 0xE5E5E5E5u) { systematic (r, (int) c->v[1], (int) (c->v[2] % 3)); return; }
-  if (c->n >= 4 && c->v[0] == 0xE5E5E5E6u) { heavy_enum (r, (int) (c->v[1] % 8), (int) (c->v[2] % 3), (int) (c->v[3] % 64)); return; }
+  if (c->n >= 2 && c->v[0] == 0xE5E5E5E7u) { regress_case (r, (int) (c->v[1] % N_REGRESS)); return; }
+  if (c->n >= 4 && c->v[0] == 0xE5E5E5E6u) { heavy_enum (r, (int) (c->v[1] % 8), (int) (c->v[2] % 3), (int) (c->v[3] % 64), c->n >= 5 ? (int) (c->v[4] % 2) : 0); return; }
   gen_opts_default (&go);
   go.allow_float = 1;
   go.max_insns = 20;
